@@ -10,6 +10,9 @@
                                  /\ nitems t = length (abs t)
      rbh t n                   no red node has a red child and every path from t to a leaf has n black nodes
      total_order cmp           cmp a b = Eq -> a = b, reflexive, antisymmetric (CompOpp), transitive
+     use_succ                  Tree_Rem's donor rule for a node with two children, as a function of (predecessor is
+                               black) (successor is red): true = refill from the in-order successor.  ARBITRARY in every
+                               theorem; the value of the working tree is Generated.tree_rem_use_succ
      OCrash / OFuel            the C code would dereference NULL / the iteration loop ran out of fuel *)
 From Coq Require Import List ZArith Sorted.
 From CelloV Require Import Generated RBTree RBProofs RBBalance RBIter RBRefine RBSource.
@@ -24,24 +27,26 @@ Print Assumptions tree_rb_inv_init.
 (* every operation (set, rem, get, mem, resize, copy, assign) on a valid tree: the invariant is kept,
    the abstraction commutes with the specification's step and the outcomes are equal (value, bool,
    KeyError on an absent key, FormatError on resize to n > 0) *)
-Theorem tree_step_refines : forall (K V : Type) (cmp : K -> K -> comparison), total_order cmp ->
+Theorem tree_step_refines : forall (K V : Type) (cmp : K -> K -> comparison) (use_succ : bool -> bool -> bool),
+  total_order cmp ->
   forall (t : rbt K V) (o : op K V), rb_inv K V cmp t ->
-    rb_inv K V cmp (fst (t_step K V cmp t o)) /\
-    abs K V (fst (t_step K V cmp t o)) = fst (spec_step K V cmp (abs K V t) o) /\
-    snd (t_step K V cmp t o) = snd (spec_step K V cmp (abs K V t) o).
+    rb_inv K V cmp (fst (t_step K V cmp use_succ t o)) /\
+    abs K V (fst (t_step K V cmp use_succ t o)) = fst (spec_step K V cmp (abs K V t) o) /\
+    snd (t_step K V cmp use_succ t o) = snd (spec_step K V cmp (abs K V t) o).
 Proof. exact step_refines_total. Qed.
 Print Assumptions tree_step_refines.
 
 (* lifted over ALL histories starting from new(Tree): invariant, contents and every outcome agree with the
    ordered map; no step crashes (NULL sibling / NULL nephew / red root parent branches of the fix-ups are
    unreachable) and no loop runs out of fuel *)
-Theorem tree_refines_omap : forall (K V : Type) (cmp : K -> K -> comparison), total_order cmp ->
+Theorem tree_refines_omap : forall (K V : Type) (cmp : K -> K -> comparison) (use_succ : bool -> bool -> bool),
+  total_order cmp ->
   forall ops : list (op K V),
-    rb_inv K V cmp (t_run K V cmp ops (t_empty K V)) /\
-    abs K V (t_run K V cmp ops (t_empty K V)) = spec_run K V cmp ops [] /\
-    t_outs K V cmp ops (t_empty K V) = spec_outs K V cmp ops [] /\
-    ~ In (OCrash V) (t_outs K V cmp ops (t_empty K V)) /\
-    ~ In (OFuel V) (t_outs K V cmp ops (t_empty K V)).
+    rb_inv K V cmp (t_run K V cmp use_succ ops (t_empty K V)) /\
+    abs K V (t_run K V cmp use_succ ops (t_empty K V)) = spec_run K V cmp ops [] /\
+    t_outs K V cmp use_succ ops (t_empty K V) = spec_outs K V cmp ops [] /\
+    ~ In (OCrash V) (t_outs K V cmp use_succ ops (t_empty K V)) /\
+    ~ In (OFuel V) (t_outs K V cmp use_succ ops (t_empty K V)).
 Proof. exact refines_total. Qed.
 Print Assumptions tree_refines_omap.
 
@@ -61,9 +66,10 @@ Print Assumptions tree_observations.
 
 (* the two together, hypothesis-free apart from the key order: after ANY history the tree's len, iteration
    in both directions, lookups and height are those of the ordered map reached by the same history *)
-Theorem tree_history_observations : forall (K V : Type) (cmp : K -> K -> comparison), total_order cmp ->
+Theorem tree_history_observations : forall (K V : Type) (cmp : K -> K -> comparison) (use_succ : bool -> bool -> bool),
+  total_order cmp ->
   forall ops : list (op K V),
-    let t := t_run K V cmp ops (t_empty K V) in
+    let t := t_run K V cmp use_succ ops (t_empty K V) in
     let m := spec_run K V cmp ops [] in
     nitems K V t = length m /\
     iter_forward K V t = Ok (keys K V m) /\
@@ -81,6 +87,12 @@ Theorem tree_search_depth : forall (K V : Type) (cmp : K -> K -> comparison)
     descend K V cmp (root K V t) k [] = (x, p) -> 2 ^ length p <= (nitems K V t + 1) ^ 2.
 Proof. exact search_depth_total. Qed.
 Print Assumptions tree_search_depth.
+
+(* Tree_Iter_Init/Last test emptiness by `nitems is 0`; `root is NULL` is the same test on every valid tree *)
+Theorem tree_empty_tests_agree : forall (K V : Type) (cmp : K -> K -> comparison) (t : rbt K V),
+  rb_inv K V cmp t -> (nitems K V t = 0 <-> root K V t = E).
+Proof. exact empty_tests_agree. Qed.
+Print Assumptions tree_empty_tests_agree.
 
 (* height bound from the red-black shape alone *)
 Theorem tree_height_bound : forall (K V : Type) (t : tree K V),
@@ -127,10 +139,10 @@ Proof. exact bytes_cmp_total. Qed.
 Print Assumptions tree_string_keys_total_order.
 
 (* the rules of src/Tree.c that the model hard-codes (orientation of the descent, colour of a new node, end at which
-   iteration starts, which node Tree_Rem copies), re-extracted from the working tree on every run (tools/genx_tree.py) *)
+   iteration starts, Tree_Maximum/Tree_Minimum walk right/left), re-extracted from the working tree on every run (tools/genx_tree.py) *)
 Theorem tree_source_rules_as_modelled :
   tree_search_left_when = Lt /\ tree_set_left_when = Lt /\ tree_new_node_red = true /\
-  tree_iter_from_left = true /\ tree_pred_is_left_max = true.
+  tree_iter_from_left = true /\ tree_donor_helpers_ok = true.
 Proof. exact source_rules_as_modelled. Qed.
 Print Assumptions tree_source_rules_as_modelled.
 
@@ -138,28 +150,29 @@ Print Assumptions tree_source_rules_as_modelled.
 (* a history with recolourings, inner and outer rotations, removal of a node with two children (predecessor
    copy), of the root, of black leaves (double-black repair), a copy, draining and refilling: the model
    computes these outcomes and this final tree, and the final tree satisfies rb_inv's shape part *)
+Definition pred_only (_ _ : bool) := false.        (* the pinned tree: always the predecessor *)
 Definition ex_ops : list (op Z Z) :=
   [TSet Z Z 1 10; TSet Z Z 2 20; TSet Z Z 3 30; TSet Z Z 4 40; TSet Z Z 5 50; TSet Z Z 6 60; TSet Z Z 7 70; TSet Z Z 8 80;
    TSet Z Z 0 5; TSet Z Z 3 33; TGet Z Z 3; TGet Z Z 9; TMem Z Z 4; TRem Z Z 4; TRem Z Z 9; TRem Z Z 1; TRem Z Z 6; TCopy Z Z; TRem Z Z 2; TRem Z Z 8;
    TResize Z Z 3; TRem Z Z 0; TRem Z Z 3; TRem Z Z 5; TRem Z Z 7; TMem Z Z 7; TSet Z Z (-4294967296) 1; TSet Z Z 4294967296 2%Z]%Z.
 
 Example tree_history_example :
-  t_outs Z Z int_cmp ex_ops (t_empty Z Z) =
+  t_outs Z Z int_cmp pred_only ex_ops (t_empty Z Z) =
     [OUnit Z; OUnit Z; OUnit Z; OUnit Z; OUnit Z; OUnit Z; OUnit Z; OUnit Z; OUnit Z; OUnit Z;
      OVal Z 33%Z; ORaise Z TKeyError; OBool Z true; OUnit Z; ORaise Z TKeyError; OUnit Z; OUnit Z; OUnit Z;
      OUnit Z; OUnit Z; ORaise Z TFormatError; OUnit Z; OUnit Z; OUnit Z; OUnit Z; OBool Z false;
      OUnit Z; OUnit Z] /\
-  t_run Z Z int_cmp ex_ops (t_empty Z Z) =
+  t_run Z Z int_cmp pred_only ex_ops (t_empty Z Z) =
     mkT Z Z (T Black (T Red E 4294967296 2 E) (-4294967296) 1 E)%Z 2 /\
-  root Z Z (t_run Z Z int_cmp (firstn 10 ex_ops) (t_empty Z Z)) =
+  root Z Z (t_run Z Z int_cmp pred_only (firstn 10 ex_ops) (t_empty Z Z)) =
     (T Black (T Red (T Black (T Red E 8 80 E) 7 70 E) 6 60 (T Black E 5 50 E)) 4 40
              (T Red (T Black E 3 33 E) 2 20 (T Black E 1 10 (T Red E 0 5 E))))%Z.
 Proof. vm_compute. repeat split. Qed.
 
 (* the invariant's hypotheses are satisfiable by a non-trivial tree (here through the theorem itself) *)
 Example tree_rb_inv_example :
-  rb_inv Z Z int_cmp (t_run Z Z int_cmp (firstn 10 ex_ops) (t_empty Z Z)).
-Proof. exact (proj1 (tree_refines_omap Z Z int_cmp int_cmp_total (firstn 10 ex_ops))). Qed.
+  rb_inv Z Z int_cmp (t_run Z Z int_cmp pred_only (firstn 10 ex_ops) (t_empty Z Z)).
+Proof. exact (proj1 (tree_refines_omap Z Z int_cmp pred_only int_cmp_total (firstn 10 ex_ops))). Qed.
 
 (* String keys (byte lists under strcmp order): prefixes, the empty string, bytes >= 0x80 *)
 Definition sset (k : list N) (v : Z) := TSet (list N) Z k v.
@@ -168,8 +181,24 @@ Definition sget (k : list N) := TGet (list N) Z k.
 Example tree_string_keys_example :
   let ops := [sset [97%N] 1%Z; sset [] 2%Z; sset [97%N; 97%N] 3%Z; sset [255%N] 4%Z;
               sset [128%N] 5%Z; sset [98%N] 6%Z; srem [97%N]; sget []; srem [97%N]] in
-  t_outs (list N) Z bytes_cmp ops (t_empty (list N) Z) =
+  t_outs (list N) Z bytes_cmp pred_only ops (t_empty (list N) Z) =
     [OUnit Z; OUnit Z; OUnit Z; OUnit Z; OUnit Z; OUnit Z; OUnit Z; OVal Z 2%Z; ORaise Z TKeyError] /\
-  iter_forward (list N) Z (t_run (list N) Z bytes_cmp ops (t_empty (list N) Z)) =
+  iter_forward (list N) Z (t_run (list N) Z bytes_cmp pred_only ops (t_empty (list N) Z)) =
     Ok [[255%N]; [128%N]; [98%N]; [97%N; 97%N]; []].
 Proof. vm_compute. split; reflexivity. Qed.
+
+(* the other donor rule accepted from the source (successor when it is red and the predecessor black): removing the
+   root 33 of  35(B) <- 33(B) -> -15(B) with 2(R), -20(R) under -15  takes the black leaf 35 (double-black repair with a
+   rotation) under the first rule and the red leaf 2 (no repair) under the second: different valid shapes, same contents *)
+Definition donor_ops : list (op Z Z) :=
+  [TSet Z Z 33 7; TSet Z Z (-15) 8; TSet Z Z 35 9; TSet Z Z 2 10; TSet Z Z (-20) 3; TRem Z Z 33]%Z.
+Example tree_donor_rule_example :
+  root Z Z (t_run Z Z int_cmp pred_only donor_ops (t_empty Z Z)) =
+    (T Black (T Black E 35 9 (T Red E 2 10 E)) (-15) 8 (T Black E (-20) 3 E))%Z /\
+  root Z Z (t_run Z Z int_cmp andb donor_ops (t_empty Z Z)) =
+    (T Black (T Black E 35 9 E) 2 10 (T Black E (-15) 8 (T Red E (-20) 3 E)))%Z /\
+  rb_inv Z Z int_cmp (t_run Z Z int_cmp andb donor_ops (t_empty Z Z)).
+Proof.
+  split; [vm_compute; reflexivity|]. split; [vm_compute; reflexivity|].
+  exact (proj1 (tree_refines_omap Z Z int_cmp andb int_cmp_total donor_ops)).
+Qed.
